@@ -187,7 +187,7 @@ def classify(ob, job):
     base = os.path.basename(f)
     if base.startswith("gen.") or "/models/" in f or base in ("sink.h", "sv.h"):
         if "unwind" in name:
-            return "safety", ["C02"]
+            return "internal", []      # a loop exceeded its stated unwinding bound / has no loop contract: not decided, never a violation
         return "safety", ["C02"]
     return "internal", []
 
@@ -281,11 +281,15 @@ def run_job(cfg, job, tier, want_trace=False, only_property=None):
     rc, out, err, dt = run(cmd, timeout=timeout)
     r["solver_s"] = round(dt, 2)
     if rc == -9:
+        if not want_trace:
+            return run_job_split(cfg, job, r, binary, fn_args, flags, "cbmc timeout after %ds" % timeout)
         r["note"] = "cbmc timeout after %ds" % timeout; return r
     try:
         res, msgs = parse_cbmc_json(out)
     except Exception as e:
         r["note"] = "cannot parse cbmc output (rc=%d): %s %s" % (rc, out[-500:], err[-500:]); return r
+    if not want_trace and res is not None and res and any(o.get("status") == "ERROR" for o in res):
+        return run_job_split(cfg, job, r, binary, fn_args, flags, "cbmc ran out of resources (obligations with status ERROR)")
     nobody = [m for m in msgs if "no body for function" in m or "no body for callee" in m]
     allowed = set(job.get("nobody", "").split(","))
     bad = []
@@ -312,6 +316,44 @@ def run_job(cfg, job, tier, want_trace=False, only_property=None):
 
 import threading
 NATIVE_BUILD_LOCK = threading.Lock()
+
+def run_job_split(cfg, job, r, binary, fn_args, flags, why):
+    """Fallback when the one-query run does not finish: every CONTRACT obligation (tagged with a property id) and the canary is decided by its own
+    sliced query (--property), each under its own time limit.  Obligations that still do not finish, and all untagged safety obligations, stay
+    undecided (the job can therefore report a violation, but never a pass)."""
+    rc, out, err, dt = run(["cbmc", binary] + fn_args + flags + ["--show-properties", "--json-ui"], timeout=600)
+    try:
+        data = json.loads(out); plist = None
+        for el in data:
+            if isinstance(el, dict) and "properties" in el: plist = el["properties"]
+    except Exception:
+        plist = None
+    if not plist:
+        r["note"] = why + "; could not list the obligations for the per-obligation fallback"; return r
+    sel = [p for p in plist if re.match(r"((?:C\d\d,?)+): |CANARY", p.get("description", ""))]
+    per = int(job.get("qtimeout", 240)); t0 = time.time(); undec = 0
+    def one(p):
+        rc1, out1, err1, dt1 = run(["cbmc", binary] + fn_args + flags + ["--property", p["name"], "--json-ui"], timeout=per)
+        st = "TIMEOUT"
+        if rc1 != -9:
+            try:
+                res1, _ = parse_cbmc_json(out1)
+                for o in res1 or []:
+                    if o.get("property") == p["name"]: st = o.get("status")
+            except Exception:
+                st = "ERROR"
+        return p, st
+    with cf.ThreadPoolExecutor(max_workers=4) as ex:
+        outs = list(ex.map(one, sel))
+    for p, st in outs:
+        ob = {"property": p["name"], "description": p.get("description", ""), "sourceLocation": p.get("sourceLocation", {})}
+        klass, props = classify(ob, job)
+        if st not in ("SUCCESS", "FAILURE"): undec += 1
+        r["obligations"].append({"name": p["name"], "desc": ob["description"], "status": st, "class": klass, "props": props,
+                                 "loc": "%s:%s" % ((p.get("sourceLocation") or {}).get("file", ""), (p.get("sourceLocation") or {}).get("line", ""))})
+    r["obligations"].append({"name": job["entry"] + ".split-fallback", "desc": "safety obligations of this job were not decided (%s; per-obligation fallback decided %d of %d contract obligations)" % (why, len(sel) - undec, len(sel)), "status": "TIMEOUT", "class": "safety", "props": ["C02"], "loc": ""})
+    r["solver_s"] = round(time.time() - t0, 2); r["backend"] += " (per-obligation fallback: " + why + ")"; r["status"] = "done"
+    return r
 
 def run_job_native(cfg, job, r, tier):
     """Bounded stand-in: the contract is compiled as plain C++ next to the REAL function and evaluated natively over a stated finite range.
@@ -679,6 +721,10 @@ def run_and_report(prop, tier, targets, jobs, t0, extra_cov=None, extra_assumpti
             undecided.append({"job": job["id"], "why": r["note"]}); log("UNDECIDED %s: %s" % (job["id"], r["note"])); continue
         jn = 0; jd = 0; has_canary = False
         any_failure = any(o["status"] == "FAILURE" and o["class"] not in ("canary", "ignored") for o in r["obligations"])
+        # a call of a function without body or model makes every verdict of the job unreliable (its result is arbitrary): nothing of it is reported
+        if any(".no-body." in (o["name"] or "") and o["status"] != "SUCCESS" for o in r["obligations"]):
+            miss = sorted(set((o["name"] or "").split(".no-body.")[-1] for o in r["obligations"] if ".no-body." in (o["name"] or "") and o["status"] != "SUCCESS"))
+            undecided.append({"job": job["id"], "why": "call of a function without body or contract (model missing): " + ", ".join(miss)}); log("UNDECIDED %s: model missing for %s" % (job["id"], ", ".join(miss))); continue
         for ob in r["obligations"]:
             if ob["status"] not in ("SUCCESS", "FAILURE") and ob["class"] not in ("canary",):
                 # CBMC reports UNKNOWN for obligations that follow a failed *fatal* one (e.g. an invalid dereference): undecided here,
